@@ -200,15 +200,24 @@ type fCase struct {
 	NoErrCheck bool `json:"noerr,omitempty"` // model error is not compared (illegal input, outside the quantifier)
 	Expect string `json:"expect,omitempty"`  // mode oracle: the text an independent Go oracle expects
 	Units  []fUnit `json:"units,omitempty"`  // composite sequences: the top-level units (for shrinking)
+	Env    []fBind `json:"env,omitempty"`    // mode env: the printer variables bound around the call
 }
 
 // fUnit: one top-level unit of a composite control string with the arguments it consumes.
 type fUnit struct {
 	Ctrl string `json:"ctrl"`
 	Args []fArg `json:"args"`
+	Print   string `json:"print,omitempty"`   // mode env: "princ" / "prin1" — the unit is a bare ~A / ~S
+	NoModel bool   `json:"nomodel,omitempty"` // mode env: a directive outside the model
 }
 
 func (cs fCase) request() string {
+	switch cs.Mode {
+	case "env":
+		return c15EnvRequest(cs)
+	case "rlist":
+		return c15RListRequest(cs)
+	}
 	parts := []string{"fmt", "run", lib.Hex(cs.Ctrl)}
 	for _, a := range cs.Args {
 		parts = a.wire(parts)
@@ -224,9 +233,18 @@ func (cs fCase) lisp() string {
 		}
 		return "(list " + strings.Join(calls, " ") + ")"
 	}
+	if cs.Mode == "rlist" {
+		if len(cs.Args) == 1 {
+			return fmt.Sprintf("(format nil %q %s)", cs.Ctrl, cs.Args[0].Int)
+		}
+		return fmt.Sprintf("(mapcar (lambda (n) (format nil %q n)) '(%s … %s)) ; %d integers", cs.Ctrl, cs.Args[0].Int, cs.Args[len(cs.Args)-1].Int, len(cs.Args))
+	}
 	parts := []string{"(format nil", fmt.Sprintf("%q", cs.Ctrl)}
 	for _, a := range cs.Args {
 		parts = append(parts, a.lisp(true))
+	}
+	if cs.Mode == "env" {
+		return c15EnvLet(cs.Env) + strings.Join(parts, " ") + "))"
 	}
 	return strings.Join(parts, " ") + ")"
 }
@@ -373,6 +391,43 @@ func c15Impl(cs fCase) (res implResult) {
 			}(),
 			fileRes,
 		}
+	case "env":
+		let := c15EnvLet(cs.Env)
+		res = eval(let + "(format nil ctl " + argv + "))")
+		var pf []string
+		for k, u := range cs.Units {
+			var unames []string
+			for i, a := range u.Args {
+				n := fmt.Sprintf("u%da%d", k, i)
+				scope.Let(slip.Symbol(n), a.object(scope))
+				unames = append(unames, n)
+			}
+			cn := fmt.Sprintf("uctl%d", k)
+			scope.Let(slip.Symbol(cn), slip.String(u.Ctrl))
+			res.Extra = append(res.Extra, show(eval(let+"(format nil "+cn+" "+strings.Join(unames, " ")+"))")))
+			if u.Print != "" && len(unames) == 1 {
+				pf = append(pf, fmt.Sprintf("pf%d %s", k, show(eval(let+"("+u.Print+"-to-string "+unames[0]+"))"))))
+			}
+		}
+		res.Extra = append(res.Extra, pf...)
+	case "rlist":
+		// one call per integer; the texts joined by newlines, "!" for a condition
+		var b strings.Builder
+		res = implResult{Ok: true}
+		for _, a := range cs.Args {
+			scope.Let(slip.Symbol("n"), a.object(scope))
+			o := lib.EvalString(scope, "(format nil ctl n)")
+			if t, isStr := o.Value.(slip.String); o.Ok && isStr {
+				b.WriteString(string(t))
+			} else {
+				if o.GoFault {
+					res.GoFault = true
+				}
+				b.WriteByte('!')
+			}
+			b.WriteByte('\n')
+		}
+		res.Text = b.String()
 	case "seq":
 		// a history: the calls one after the other in this process, each with its own arguments
 		res = implResult{Ok: true}
@@ -689,7 +744,7 @@ func c15HasRaw(args []fArg) bool {
 
 // c15Modelled: the case has a model request
 func c15Modelled(cs fCase) bool {
-	return cs.Mode == "fmt" || cs.Mode == "oracle" || (cs.Mode == "dest" && !c15HasRaw(cs.Args))
+	return cs.Mode == "fmt" || cs.Mode == "oracle" || cs.Mode == "rlist" || ((cs.Mode == "dest" || cs.Mode == "env") && !c15HasRaw(cs.Args))
 }
 
 // c15CaseAspect: the aspect of one case of any mode ("" = agreement). Mode dest is compared with the
@@ -698,6 +753,17 @@ func c15CaseAspect(cs fCase, impl implResult, model string) string {
 	switch cs.Mode {
 	case "fmt":
 		return c15Aspect(cs, impl, model)
+	case "env":
+		return c15EnvAspect(cs, impl, model)
+	case "rlist":
+		if impl.Hang {
+			return "hang"
+		}
+		if impl.GoFault {
+			return "go-fault"
+		}
+		_, kind, _, _ := c15RListFirstBad(cs, impl, model)
+		return kind
 	case "seq":
 		if impl.Hang {
 			return "hang"
@@ -884,6 +950,9 @@ func runC15(c *lib.Ctx) {
 	sweep := c15SweepCases(c.Thorough())
 	comp := c15CompositeCases(c.Rng, c.Scale(8000, 1200000), avoid)
 	sweep = append(sweep, c15LongDestCases(c.Thorough())...)
+	sweep = append(sweep, c15EnvCases(c.Thorough())...)
+	sweep = append(sweep, c15RListCases(c.Thorough())...)
+	comp = append(comp, c15EnvComposite(c.Rng, c.Scale(600, 30000), avoid)...)
 	comp = append(comp, c15CompositeDest(c.Rng, c.Scale(300, 4000), c.Thorough(), avoid)...)
 	// the histories are the first cases of the first worker: a fresh process
 	cases := append(append(append([]fCase{}, c15HistoryCases()...), sweep...), comp...)
@@ -980,14 +1049,14 @@ func runC15(c *lib.Ctx) {
 			}
 		}
 		if i%(len(cases)/12+1) == 0 {
-			c.Ev.Sample(map[string]string{"case": cs.lisp(), "impl": impl.String(), "model": replies[i]})
+			c.Ev.Sample(map[string]string{"case": cs.lisp(), "impl": impl.String(), "model": c15Clip(replies[i])})
 		}
 		if aspect == "" {
 			agree++
 			continue
 		}
 		expected := replies[i]
-		if cs.Mode == "fmt" || cs.Mode == "dest" {
+		if cs.Mode == "fmt" || cs.Mode == "dest" || cs.Mode == "env" {
 			if t, ok, _ := c15ModelText(orOkEmpty(replies[i])); ok {
 				expected = fmt.Sprintf("ok %q", c15Clip(t))
 			}
@@ -1006,6 +1075,21 @@ func runC15(c *lib.Ctx) {
 			rec["observed"] = strings.Join(impl.Extra, " ; ")
 			rec["expected"] = strings.Join(exp, " ; ")
 			rec["expected_from"] = "model:fmt.run for every call of the history (the calls are evaluated in this order in one fresh process)"
+		} else if cs.Mode == "env" {
+			rec["expected"] = expected + "; = the texts of its directives in separate calls joined by \"|\"; a bare ~A / ~S = princ-to-string / prin1-to-string under the same bindings"
+			rec["expected_from"] = "model:fmt.runenv (printer variables are the context of the whole call) + Theorems.C15Runs.runs_append + property statement (~A = princ, ~S = prin1)"
+		} else if cs.Mode == "rlist" {
+			if idx, kind, got, want := c15RListFirstBad(cs, impl, replies[i]); idx >= 0 && idx < len(cs.Args) {
+				one := fCase{Mode: "fmt", Ctrl: cs.Ctrl, Args: []fArg{cs.Args[idx]}, Cell: cs.Cell, Sweep: true, Inst: cs.Inst}
+				rec["expected_from"] = "model:fmt.rlist (first failing integer of the batch)"
+				if kind == "text-vs-oracle" {
+					one.Mode, one.Expect = "oracle", want
+					rec["expected_from"] = "independent Go oracle for English numerals (first failing integer of the batch)"
+				}
+				rec["input"], rec["cases"], rec["observed"], rec["expected"] = one.lisp(), []fCase{one}, fmt.Sprintf("%q", got), fmt.Sprintf("%q", want)
+				cs = one
+				impl = implResult{Ok: got != "!", Text: got}
+			}
 		} else if cs.Mode == "oracle" {
 			rec["expected"] = fmt.Sprintf("ok %q", cs.Expect)
 			rec["expected_from"] = "independent Go oracle for English / Roman numerals"
@@ -1066,8 +1150,12 @@ func runC15(c *lib.Ctx) {
 					compRecs[i]["input"] = small.lisp()
 					compRecs[i]["cases"] = []fCase{small}
 					impl := c15RunImpl([]fCase{small}, 1)[0]
-					model := c.Model([]string{small.request()})[0]
+					model := "err none"
+					if c15Modelled(small) {
+						model = c.Model([]string{small.request()})[0]
+					}
 					compRecs[i]["observed"] = impl.String()
+					compRecs[i]["observed_related"] = impl.Extra
 					if t, ok, _ := c15ModelText(model); ok {
 						compRecs[i]["expected"] = fmt.Sprintf("ok %q", t)
 					} else {
@@ -1083,14 +1171,17 @@ func runC15(c *lib.Ctx) {
 	c.Ev.Coverage["model_rejected_inputs"] = modelRejected
 	c.Ev.Coverage["sweep_cells_failing"] = len(cellOrder)
 	c.Ev.Coverage["disagreements_checked"] = len(cases) - agree
-	c.Ev.Coverage["rule"] = "cases = (control string, argument tuple); sweep = per directive x modifiers x parameter class x argument class cells (exhaustive, seed independent; ~@R/~:@R over all of 1..3999) + cursor-boundary, no-argument-left, V/+ parameter and colinc-0 cells + nested conditionals (every inner kind in every clause of every outer kind, in- and out-of-range selectors) + histories (mode seq: several calls in one fresh process, each compared with the model, values unique to the history) + implementation-only relations (~A=princ, ~S=prin1, destinations); composite = seeded random compositions of up to 4 directives incl. nesting, avoiding constructs listed in findings; non-trivial = a directive has a parameter or modifier, or >= 2 directives; distinct by (control, arguments)"
+	c.Ev.Coverage["rule"] = "cases = (control string, argument tuple); sweep = per directive x modifiers x parameter class x argument class cells (exhaustive, seed independent; ~@R/~:@R over all of 1..3999) + cursor-boundary, no-argument-left, V/+ parameter and colinc-0 cells + nested conditionals (every inner kind in every clause of every outer kind, in- and out-of-range selectors) + histories (mode seq: several calls in one fresh process, each compared with the model, values unique to the history) + characters of every UTF-8 length class + printer-variable environments (mode env: pairs unusual-argument directive -> printer-dependent directive; model text, call = its directives in separate calls, ~A/~S = princ/prin1-to-string) + ~R/~:R ranges (mode rlist: exhaustive range and every period boundary, model and oracle; one case = one batch of integers) + implementation-only relations (~A=princ, ~S=prin1, destinations); composite = seeded random compositions of up to 4 directives incl. nesting, avoiding constructs listed in findings; non-trivial = a directive has a parameter or modifier, or >= 2 directives; distinct by (control, arguments)"
 }
 
 // c15Shrink removes top-level units (with their arguments) while the case still disagrees.
 func c15Shrink(c *lib.Ctx, cs fCase) fCase {
 	build := func(units []fUnit) fCase {
-		out := fCase{Mode: cs.Mode, Units: units}
-		for _, u := range units {
+		out := fCase{Mode: cs.Mode, Units: units, Env: cs.Env}
+		for i, u := range units {
+			if cs.Mode == "env" && i > 0 {
+				out.Ctrl += c15EnvSep
+			}
 			out.Ctrl += u.Ctrl
 			out.Args = append(out.Args, u.Args...)
 		}
@@ -1105,9 +1196,12 @@ func c15Shrink(c *lib.Ctx, cs fCase) fCase {
 			if cc.Ctrl == "" {
 				continue
 			}
-			model := c.Model([]string{cc.request()})[0]
-			if _, mok, _ := c15ModelText(model); !mok {
-				continue // keep the witness inside the legal inputs
+			model := ""
+			if c15Modelled(cc) {
+				model = c.Model([]string{cc.request()})[0]
+				if _, mok, _ := c15ModelText(model); !mok {
+					continue // keep the witness inside the legal inputs
+				}
 			}
 			impl := c15RunImpl([]fCase{cc}, 1)[0]
 			if c15CaseAspect(cc, impl, model) != "" {
